@@ -201,7 +201,16 @@ def doBlock (s : St) (rest : List String) : St × String :=
       else if k.startsWith "sig:" then (parseTx inner).map (fun x => (x, k == "sig:ok")) else (parseTx t).map (fun x => (x, true))
     | [] => none
   -- `again k`: the k-th transaction of the history once more; an index behind the log names a transaction of this very block
-  let txs := (splitTxs rest).foldl (fun (acc : List (Option (Tx × Bool))) t => acc ++ [match t with
+  -- `xfer <from> <to> all-<k>`: the sender's balance as the block begins, minus k
+  let resolveAll (t : List String) : List String := match t with
+    | ["xfer", f, to, amt] =>
+      if amt.startsWith "all-" then
+        match (amt.drop 4).toString.toInt? with
+        | some k => ["xfer", f, to, toString (s.node.led.getBal f - k)]
+        | none => t
+      else t
+    | _ => t
+  let txs := ((splitTxs rest).map resolveAll).foldl (fun (acc : List (Option (Tx × Bool))) t => acc ++ [match t with
     | ["again", k] => (k.toNat?).bind (fun i => if i < s.log.length then s.log[i]? else (acc[i - s.log.length]?).join)
     | _ => parseSigned t]) []
   if txs.all Option.isSome then
